@@ -317,7 +317,7 @@ def parseLambda (lexErr : Bool) : Nat → List Tok → Except PErr (OptLam × Li
 end
 
 /-- fuel that is always enough (`parse_fuel_sufficient`) -/
-def parseFuel (ts : List Tok) : Nat := 2 * ts.length + 4
+def parseFuel (ts : List Tok) : Nat := 4 * ts.length + 8
 
 /-- `ODataParser().parse(tokens)` on the tokens produced before the first lexing error. -/
 def parseToks (lexErr : Option Nat) (ts : List Tok) : Outcome Expr :=
